@@ -241,6 +241,8 @@ def run(ctx: RuleContext, p: Program) -> None:
     from . import c10 as _c10
     # removing through a filtered view (del / pop / remove / discard / clear, by position or by value) removes exactly the items asked for
     ctx.try_rule(_c10.rule_view_sem, p, 'VIEW-SEM', 3 if ctx.tier == 'quick' else 4)
+    from . import descsem as _ds
+    ctx.try_rule(_ds.rule_desc_sem, p, 'DESC-SEM')
     ctx.not_decided += ['full separator arithmetic for every (index, arity, position)', 'store block boundaries (C07)',
                         'identity of tokens outside the edit window (runtime)']
     ctx.assumptions += ['TokenStore.insert_after/insert_before/remove/splice semantics (C07)']
